@@ -361,15 +361,15 @@ class FSA:
             same length, include both of them in the new graph.
 
     """
-        H = FSA({})
+        if root is None:
+            root = self.start_vertices[0]
+
+        H = FSA({}, start_vertices=[root])
         H.add_vertices(self.vertices())
 
         #Dijkstra's algorithm!
         distance = {}
         marked = {v:False for v in self.vertices()}
-
-        if root is None:
-            root = self.start_vertices[0]
 
         marked[root] = True
         distance[root] = 0
